@@ -48,7 +48,8 @@ QUICK_SC = ["ssl3-rsa", "tls10-dhe_rsa", "tls11-ecdhe_rsa-clientauth",
             "tls13-rsa", "tls13-hrr", "tls13-psk_dhe", "tls13-clientauth",
             "tls13-resume-ticket", "default-default", "tls12-ecdhe_rsa-alpn",
             "tls13-alpn-tickets", "tls12-ecdhe_rsa-npn"]
-FAIL_SC = ["fail-nosuite", "fail-version", "fail-tamper"]
+FAIL_SC = ["fail-nosuite", "fail-version", "fail-tamper", "fail-sni",
+           "fail-sni13"]
 
 # payloads that fill records of every size class: a few bytes, more than
 # the read-ahead of BufferedSocket (4096), more than one full record
@@ -235,6 +236,15 @@ def special_flavor(name):
                                     cipherNames=["aes128"]),
                       sset=settings(maxVersion=(3, 3),
                                     cipherNames=["aes256gcm"]))
+    if name in ("fail-sni", "fail-sni13"):
+        # the server is told which name it serves (handshakeServer(sni=)):
+        # a client asking for another one gets the unrecognized_name
+        # warning, which the tlslite client takes as the end
+        v = (3, 3) if name == "fail-sni" else (3, 4)
+        return Flavor("cert", skey="rsa", sni="asked.example",
+                      cset=settings(minVersion=v, maxVersion=v),
+                      sset=settings(minVersion=v, maxVersion=v),
+                      server_kw=dict(sni="served.example"))
     if name == "fail-version":
         return Flavor("cert", skey="rsa",
                       cset=settings(minVersion=(3, 3), maxVersion=(3, 3)),
